@@ -86,14 +86,28 @@ pub fn run_miri(prop: &str, tier: Tier, seed: u64, root: &Path, nproc: u64, tmp:
             Err(e) => out.inconclusive.push(format!("miri: spawn failed: {}", e)),
         }
     }
-    let cap = Duration::from_secs(20 * 60);
+    let cap = Duration::from_secs(std::env::var("VERIF_MIRI_CAP_SECS").ok().and_then(|v| v.parse().ok()).unwrap_or(20 * 60));
     let mut ok = 0;
     let mut evals = 0u64;
+    let mut stopped_at_cap = 0u64;
+    let mut partial_cases = 0u64;
     for (i, st) in wait_all(children, cap) {
         let so = std::fs::read_to_string(tmp.join(format!("miri{}.out", i))).unwrap_or_default();
         let se = std::fs::read_to_string(tmp.join(format!("miri{}.err", i))).unwrap_or_default();
         match st {
-            None => out.inconclusive.push(format!("miri: process {} of {} did not finish within {:?} (killed)", i, nproc, cap)),
+            None => {
+                // stopped at the cap (Miri's clock is virtual under isolation, so the shard cannot watch its own wall time):
+                // what it ran up to then was interpreted without a report, and is counted as such
+                let cases = se.lines().filter(|l| l.starts_with("VERIF-TAKE ")).count().saturating_sub(1) as u64; // the last one was in progress
+                let reported = se.lines().any(|l| l.starts_with("error: ") && !l.contains("aborting due to"));
+                if cases == 0 || reported {
+                    out.inconclusive.push(format!("miri: process {} of {} did not finish within {:?} (killed) after {} cases", i, nproc, cap, cases));
+                } else {
+                    stopped_at_cap += 1;
+                    evals += cases;
+                    partial_cases += cases;
+                }
+            }
             Some(s) if s.success() => {
                 if let Some(l) = so.lines().find(|l| l.starts_with("VERIF-SHARD-JSON ")) {
                     if let Ok(j) = serde_json::from_str::<Value>(&l["VERIF-SHARD-JSON ".len()..]) {
@@ -109,7 +123,7 @@ pub fn run_miri(prop: &str, tier: Tier, seed: u64, root: &Path, nproc: u64, tmp:
                 // find the Miri diagnostic
                 let lines: Vec<&str> = se.lines().collect();
                 let pos = lines.iter().position(|l| l.starts_with("error: ") && !l.contains("aborting due to"));
-                let last_case = lines.iter().rev().find(|l| l.starts_with("VERIF-CASE ")).map(|l| l.to_string()).unwrap_or_default();
+                let last_case = lines.iter().rev().find(|l| l.starts_with("VERIF-CASE ") || l.starts_with("VERIF-TAKE ")).map(|l| l.to_string()).unwrap_or_default();
                 match pos {
                     Some(p) => {
                         let head = lines[p];
@@ -137,7 +151,8 @@ pub fn run_miri(prop: &str, tier: Tier, seed: u64, root: &Path, nproc: u64, tmp:
             }
         }
     }
-    out.summary.push(json!({"tool": "miri", "processes": nproc, "finished_ok": ok, "evaluations": evals, "wall_s": t0.elapsed().as_secs_f64(),
+    out.summary.push(json!({"tool": "miri", "processes": nproc, "finished_ok": ok, "stopped_at_the_time_cap_without_a_report": stopped_at_cap,
+        "cases_run_by_the_stopped_processes": partial_cases, "evaluations": evals, "wall_s": t0.elapsed().as_secs_f64(),
         "flags": "default isolation (virtual clock), -q"}));
     out
 }
